@@ -285,6 +285,11 @@ class PusTc(AbstractSpacePacket):
         )
         header_len = CCSDS_HEADER_LEN + tc_unpacked.pus_tc_sec_header.get_header_size()
         expected_packet_len = tc_unpacked.packet_len
+        if expected_packet_len < header_len + 2:
+            raise ValueError(
+                f"packet length {expected_packet_len} from the space packet header too small "
+                f"to hold the secondary header and the CRC16"
+            )
         if len(data) < expected_packet_len:
             raise BytesTooShortError(expected_packet_len, len(data))
         tc_unpacked._app_data = data[header_len : expected_packet_len - 2]
